@@ -563,14 +563,29 @@ def _deps_reprocessed(ctx: Ctx, cf: FuncInfo, deps_arg) -> bool:
     if not isinstance(deps_arg, ast.Name):
         return False
     acc: set[str] = set()
-    for n in walk_local(cf.node):
-        if isinstance(n, ast.AugAssign) and isinstance(n.op, ast.Add) and isinstance(n.target, ast.Name) \
-                and any(isinstance(x, ast.Name) and x.id == deps_arg.id for x in ast.walk(n.value)):
-            acc.add(n.target.id)
-        if isinstance(n, ast.Call) and isinstance(n.func, ast.Attribute) and n.func.attr in ('extend', 'update') \
-                and isinstance(n.func.value, ast.Name) and n.args \
-                and any(isinstance(x, ast.Name) and x.id == deps_arg.id for x in ast.walk(n.args[0])):
-            acc.add(n.func.value.id)
+    src_names = {deps_arg.id}
+
+    def mentions(e: ast.AST) -> bool:
+        return any(isinstance(x, ast.Name) and x.id in (acc | src_names) for x in ast.walk(e))
+
+    changed = True
+    while changed:
+        changed = False
+        for n in walk_local(cf.node):
+            tgt = None
+            if isinstance(n, ast.AugAssign) and isinstance(n.op, ast.Add) and isinstance(n.target, ast.Name) and mentions(n.value):
+                tgt = n.target.id
+            elif isinstance(n, ast.Call) and isinstance(n.func, ast.Attribute) and n.func.attr in ('extend', 'update', 'append', 'add') \
+                    and isinstance(n.func.value, ast.Name) and n.args and mentions(n.args[0]):
+                tgt = n.func.value.id
+            elif isinstance(n, (ast.Assign, ast.AnnAssign)) and getattr(n, 'value', None) is not None and mentions(n.value):
+                # flattening / copying: list(chain.from_iterable(sets)), [d for s in sets for d in s], sets + more ...
+                t0 = n.targets[0] if isinstance(n, ast.Assign) else n.target
+                if isinstance(t0, ast.Name) and t0.id not in src_names:
+                    tgt = t0.id
+            if tgt is not None and tgt not in acc and tgt not in src_names:
+                acc.add(tgt)
+                changed = True
     for call in calls_in(cf.node):
         if cf.qualname in ctx.P.resolve_call(call, cf):
             for a in list(call.args) + [k.value for k in call.keywords]:
